@@ -1,7 +1,6 @@
-From Coq Require Import List NArith.
-From QV Require Import Kernel.Ident Kernel.IdentProofs.
+From Coq Require Import List NArith Arith.
+From QV Require Import Kernel.Ident Kernel.IdentProofs Kernel.Tasklocal Kernel.TasklocalProofs.
 Import ListNotations.
-Local Open Scope N_scope.
 
 Theorem id_nonzero : forall c, fst (id_alloc c) <> NON_TASK_ID /\ fst (id_alloc c) <> NULL_TASK_ID.
 Proof. exact id_alloc_reserved. Qed.
@@ -21,7 +20,53 @@ Proof. exact id_stable_run. Qed.
 Print Assumptions id_stable.
 
 Theorem id_distinct : forall n c i j a b,
-  c < M64 -> (i < j < n)%nat -> N.of_nat (j - i) < M32 - 2 ->
+  (c < M64)%N -> (i < j < n)%nat -> (N.of_nat (j - i) < M32 - 2)%N ->
   nth_error (fst (alloc_seq n c)) i = Some a -> nth_error (fst (alloc_seq n c)) j = Some b -> a <> b.
 Proof. exact id_distinct_apart. Qed.
 Print Assumptions id_distinct.
+
+Theorem id_redraw_interleaved_null : forall c0 c, wrap32 c0 = NULL_TASK_ID -> (c0 < c)%N -> (c - c0 < M32 - 2)%N ->
+  forall c' p, astep (wrap64 c) PRedrawNull = (c', p) -> exists i, p = PDone i /\ i <> NON_TASK_ID /\ i <> NULL_TASK_ID.
+Proof. exact redraw_null_ok. Qed.
+Print Assumptions id_redraw_interleaved_null.
+
+Theorem tl_invariant_reachable : forall c junk ops, inv c (trun c junk init ops).
+Proof. exact inv_reachable. Qed.
+Print Assumptions tl_invariant_reachable.
+
+Theorem tl_grow_preserves : forall c junk s tid size r s' old,
+  inv c s -> get_tasklocal c junk s tid size = Some (r, s') -> tl_view c s tid = Some old ->
+  exists new, tl_view c s' tid = Some new /\ firstn (length old) new = old /\ length old <= length new /\
+              size <= length new /\ size_tasklocal c s' tid = Some (length new) /\ tl_region c s' tid = Some r.
+Proof. exact tl_grow_preserves_step. Qed.
+Print Assumptions tl_grow_preserves.
+
+Theorem tl_grow_preserves_every_run : forall c junk ops tid size r s' old,
+  let s := trun c junk init ops in
+  get_tasklocal c junk s tid size = Some (r, s') -> tl_view c s tid = Some old ->
+  exists new, tl_view c s' tid = Some new /\ firstn (Nat.min (length old) (length new)) new = firstn (Nat.min (length old) (length new)) old /\
+              size <= length new.
+Proof. exact tl_grow_preserves_run. Qed.
+Print Assumptions tl_grow_preserves_every_run.
+
+Theorem tl_private : forall c s t1 t2 r1 r2, inv c s -> t1 <> t2 ->
+  (tl_region c s t1 = Some r1 \/ arg_region s t1 = Some r1) ->
+  (tl_region c s t2 = Some r2 \/ arg_region s t2 = Some r2) -> regions_disjoint r1 r2.
+Proof. exact tl_private_tasks. Qed.
+Print Assumptions tl_private.
+
+Theorem tl_private_argcopy : forall c s t r1 r2, inv c s ->
+  tl_region c s t = Some r1 -> arg_region s t = Some r2 -> regions_disjoint r1 r2.
+Proof. exact tl_private_own_arg. Qed.
+Print Assumptions tl_private_argcopy.
+
+Theorem tl_persist : forall c junk s o t, inv c s -> op_tid o <> t ->
+  tl_view c (tstep c junk s o) t = tl_view c s t /\ arg_view (tstep c junk s o) t = arg_view s t /\
+  tl_region c (tstep c junk s o) t = tl_region c s t.
+Proof. exact tl_persist_step. Qed.
+Print Assumptions tl_persist.
+
+Theorem tl_store_read_back : forall c s tid bs s' old, inv c s -> tl_view c s tid = Some old -> length bs = length old ->
+  tl_write c s tid 0 bs = Some s' -> tl_view c s' tid = Some bs.
+Proof. exact tl_write_read. Qed.
+Print Assumptions tl_store_read_back.
